@@ -28,3 +28,6 @@ void pl_lemma_osec_lex(void)
   __CPROVER_assert(lemma_osec_lex_ENS(a, b), "lemma_osec_lex.ENS");
 }
 #pragma CPROVER check pop
+
+/* R19: the padded table elements are exactly 64 bytes (pointer <-> index conversion is a shift) */
+_Static_assert(sizeof(Transition) == 64 && sizeof(TransitionType) == 64, "R19 padding");
